@@ -66,6 +66,7 @@ type SimReader struct {
 	AfterTerm   int // calls made after the terminal condition
 	EmptyReads  int
 	DataWithErr int
+	Scribbled   int // reads after which the unused part of p was overwritten
 	Reads       int
 }
 
@@ -104,10 +105,38 @@ func (r *SimReader) record(lenp, n int, err error) {
 	}
 }
 
+// scribble overwrites (at most 96 bytes of) the part of p the call did not
+// fill, which the io.Reader contract allows a reader to use as scratch space.
+func (r *SimReader) scribble(p []byte, n int) {
+	if r.scn.Scribble == "" || n < 0 || n >= len(p) {
+		return
+	}
+	rest := p[n:]
+	if len(rest) > 96 {
+		rest = rest[:96]
+	}
+	r.Scribbled++
+	for i := range rest {
+		switch r.scn.Scribble {
+		case "newline":
+			rest[i] = "\n\r"[i&1]
+		case "nul":
+			rest[i] = 0
+		case "data":
+			// bytes of the document that lie further ahead (or behind)
+			if len(r.doc) > 0 {
+				rest[i] = r.doc[(r.pos+7+i)%len(r.doc)]
+			}
+		default:
+			rest[i] = 0xEE
+		}
+	}
+}
+
 func (r *SimReader) Read(p []byte) (n int, err error) {
 	simrt.Yield(siteRead)
 	r.Reads++
-	defer func() { r.record(len(p), n, err) }()
+	defer func() { r.scribble(p, n); r.record(len(p), n, err) }()
 	if r.terminated {
 		r.AfterTerm++
 		// recovering reader: serve what lies beyond the fault point
